@@ -376,7 +376,17 @@ def c17_3(ctx: Ctx) -> RuleResult:
         merged = any(isinstance(n, ast.Dict) and len(n.keys) >= 2 and n.keys[-1] is None and isinstance(n.values[-1], ast.Name) and "option" in n.values[-1].id
                      for m in c.methods.values() for n in nodes_in(m, ast.Dict))
         upd_ok = len(upd) >= 2 and "option" in ast.unparse(upd[0].args[0]) and "option" in ast.unparse(upd[-1].func.value)
-        ok = bool(sd) or merged or upd_ok
+        # ... `key not in options` as the filter of a comprehension or the test of an `if` around the store, or a merge
+        # with the given options as the right operand: `defaults | options`
+        def not_in_options(t_):
+            return isinstance(t_, ast.Compare) and len(t_.ops) == 1 and isinstance(t_.ops[0], ast.NotIn) and "option" in ast.unparse(t_.comparators[0])
+
+        guarded_comp = any(any(not_in_options(i_) for g_ in n.generators for i_ in g_.ifs) for m in c.methods.values() for n in nodes_in(m, (ast.DictComp, ast.GeneratorExp, ast.ListComp)))
+        guarded_store = any(not_in_options(n.test) and any(isinstance(x, ast.Assign) and any(isinstance(t_, ast.Subscript) and "option" in ast.unparse(t_.value) for t_ in x.targets)
+                                                          for s_ in n.body for x in ast.walk(s_)) for m in c.methods.values() for n in nodes_in(m, ast.If))
+        right_merge = any(isinstance(n.op, ast.BitOr) and "option" in ast.unparse(n.right) and "option" not in ast.unparse(n.left) and "efault" in ast.unparse(n.left).lower()
+                          for m in c.methods.values() for n in nodes_in(m, ast.BinOp))
+        ok = bool(sd) or merged or upd_ok or guarded_comp or guarded_store or right_merge
         res.add(None, (sd or upd or [c.node])[0], "defaults are applied only for options that were not given explicitly", ok,
                 "" if ok else "explicit sampler options can be overridden by the defaults", construct=f"{c.name}: explicit options win",
                 where=f"{c.module.relpath}:{((sd or upd or [c.node])[0]).lineno}", fname=c.qualname)
